@@ -195,7 +195,7 @@ func main() {
 
 func run(c *vf.Ctx) {
 	g := gitx.New(c.Scratch)
-	nh := c.N(240, 3000)
+	nh := c.N(240, 1400)
 	initial := value(0xee, 0)
 	var hmu sync.Mutex
 	totalEvents := 0
@@ -378,13 +378,13 @@ func run(c *vf.Ctx) {
 	})
 	c.Extra("events", totalEvents)
 	c.Extra("git_invocations", gitx.Calls.Load())
-	c.Floor("histories", c.Counter("histories"), c.N(220, 2500))
-	c.Floor("histories whose CAS-only part porcupine found linearizable", c.Counter("porcupine_cas_ok"), c.N(80, 800))
-	c.Floor("cross-process histories", c.Counter("process_histories"), c.N(45, 500))
-	c.Floor("histories without PackRefs whose version chain is sound", c.Counter("histories_with_sound_chain"), c.N(80, 800))
-	c.Floor("distinct interleavings (client order along the version chain)", c.SeenCount("interleavings"), c.N(80, 600))
-	c.Floor("successful CAS observed", c.Counter("cas_ok"), c.N(3000, 30000))
-	c.Floor("failed (changed) CAS observed", c.Counter("cas_changed"), c.N(300, 2000))
+	c.Floor("histories", c.Counter("histories"), c.N(220, 1250))
+	c.Floor("histories whose CAS-only part porcupine found linearizable", c.Counter("porcupine_cas_ok"), c.N(80, 400))
+	c.Floor("cross-process histories", c.Counter("process_histories"), c.N(45, 250))
+	c.Floor("histories without PackRefs whose version chain is sound", c.Counter("histories_with_sound_chain"), c.N(80, 400))
+	c.Floor("distinct interleavings (client order along the version chain)", c.SeenCount("interleavings"), c.N(80, 350))
+	c.Floor("successful CAS observed", c.Counter("cas_ok"), c.N(3000, 15000))
+	c.Floor("failed (changed) CAS observed", c.Counter("cas_changed"), c.N(300, 1200))
 	c.Assume("timestamps from CLOCK_MONOTONIC taken immediately before the call and after the return at the client boundary")
 	c.Assume("spurious CAS failures are not violations (the property speaks about successful updates)")
 }
